@@ -16,14 +16,31 @@ MANIFEST = {
 def jobs(tier):
     J = C02.jobs(tier, prop="ASSERT_C09")
     J = [j for j in J if "foreach" not in j.name]
-    J.append(C02.op_job("notify_diff_v4_d0e1", "harness_notify_diff", 0, 1, 4, 1500, prop="ASSERT_C09", harness="pfx_notify.c",
-                        extra=["TL_OTHER_EMPTY"], mem=28, weight=6,
-                        what="pfx_table_notify_diff on two arbitrary Inv-valid tables of <=1 IPv4 node + <=1 IPv6 node with one record each"))
-    J.append(C02.op_job("free_v4_d1", "harness_free", 1, 2, 4, 1500, prop="ASSERT_C09", harness="pfx_notify.c"))
-    J[-2].solver = ["--sat-solver", "cadical"]  # MiniSat runs out of memory on the two-table formula
+    # pfx_table_notify_diff(new, old): the shapes of the two tables are enumerated by the driver (which nodes exist, how many
+    # records each holds), every prefix, length, AS, max length, source and the reloading socket are symbolic.  (The job with
+    # symbolic shapes, notify_diff_v4_d0e1, needs 10 min / 28 GB for tables of <= 1 node and is thorough-only now.)
+    nd = [("v4_empty_n1", 4, 0, 1, 0, 1, "1"), ("v4_n1_empty", 4, 0, 1, 1, 0, "1"), ("v4_n1_n1", 4, 0, 1, 1, 1, "1"),
+          ("v4_n2_n2", 4, 0, 2, 1, 1, "2"), ("v4_n2_empty", 4, 0, 2, 1, 0, "2"), ("v4_empty_n2", 4, 0, 2, 0, 1, "2"),
+          ("v4_rootleft_rootleft", 4, 1, 1, 3, 3, "1,1,1"), ("v4_rootright_rootleft", 4, 1, 1, 5, 3, "1,1,1"),
+          ("v4_root2leaves_n1", 4, 1, 1, 7, 1, "1,1,1"), ("v4_n1_root2leaves", 4, 1, 1, 1, 7, "1,1,1"),
+          ("v6_n1_n1", 6, 0, 1, 1, 1, "1"), ("v6_n2_n2", 6, 0, 2, 1, 1, "2")]
     if tier == "thorough":
-        J.append(C02.op_job("notify_diff_v4_d0e2", "harness_notify_diff", 0, 2, 4, 5400, prop="ASSERT_C09", harness="pfx_notify.c", weight=3, mem=24))
-        J.append(C02.op_job("notify_diff_v6_d0", "harness_notify_diff", 0, 2, 6, 3600, prop="ASSERT_C09", harness="pfx_notify.c", weight=2))
+        nd += [("v4_root2leaves_root2leaves", 4, 1, 1, 7, 7, "1,1,1"), ("v4_n3_n3", 4, 0, 3, 1, 1, "3"),
+               ("v6_rootleft_rootright", 6, 1, 1, 3, 5, "1,1,1"), ("v6_root2leaves_root2leaves", 6, 1, 1, 7, 7, "1,1,1")]
+    for nm, fam, td, te, sh_new, sh_old, nrecs in nd:
+        J.append(C02.op_job("notify_diff_%s" % nm, "harness_notify_diff", td, te, fam, 2400, prop="ASSERT_C09", harness="pfx_notify.c",
+                            extra=["TL_OTHER_EMPTY", "TL_SHAPE=%d" % sh_new, "TL_SHAPE_OLD=%d" % sh_old, "TL_NRECS=%s" % nrecs], mem=16, weight=2,
+                            what="pfx_table_notify_diff(new, old) on IPv%d tables of fixed shapes new=%s old=%s (slot masks %d / %d, %s record(s) per "
+                                 "node; all field values, the reloading socket and the witness record symbolic)"
+                                 % (fam, nm.split("_")[1], nm.split("_")[2], sh_new, sh_old, nrecs.split(",")[0])))
+        J[-1].solver = ["--sat-solver", "cadical"]
+    if tier == "thorough":
+        J.append(C02.op_job("notify_diff_v4_d0e1", "harness_notify_diff", 0, 1, 4, 3000, prop="ASSERT_C09", harness="pfx_notify.c",
+                            extra=["TL_OTHER_EMPTY"], mem=28, weight=6,
+                            what="pfx_table_notify_diff on two arbitrary Inv-valid tables of <=1 IPv4 node + <=1 IPv6 node with one record each"))
+        J[-1].solver = ["--sat-solver", "cadical"]  # MiniSat runs out of memory on the two-table formula
+    J.append(C02.op_job("free_v4_d1", "harness_free", 1, 2, 4, 1500, prop="ASSERT_C09", harness="pfx_notify.c"))
+    if tier == "thorough":
         J.append(C02.op_job("free_v6_d1", "harness_free", 1, 1, 6, 3600, prop="ASSERT_C09", harness="pfx_notify.c", weight=2))
     # roll-back of a failed response and reload: net callback effect (table model; real notify_diff above)
     for sk in [[CR, V4, EOD], [CR, V4, V4, EOD], [CR, V4, T_OUT], [CR, V4, V4, V4, EOD]][: 4 if tier == "thorough" else 3]:
